@@ -442,7 +442,7 @@ CheckRet(tk, e, tk2) ==
                 \/ e.pre[q][1] = "s" /\ tk.op \in {"succeed", "fail"},
            "C16", "a log record does not correspond to a delivery or action happening at that moment")
     \* ---- C12: serialization
-    \cup V(tk.op = "save" => e.r = (IF tk.obs.act = NONE THEN 0 ELSE 1 + 2 * tk.obs.act), "C12", "save() did not write the canonical encoding of the activity state (or wrote outside the buffer)")
+    \cup V(tk.op = "save" => e.r = (IF tk.obs.act = NONE THEN 0 ELSE 1 + 2 * tk.obs.act), "C12", "save() did not write the canonical encoding of the activity state (or wrote outside the buffer, or the buffer's == / != disagree with its bytes)")
     \cup V(tk.op = "save" => Unchanged(tk, e) /\ tk.dseq = <<>>, "C12", "save() modified the machine")
     \cup V(tk.op = "load" => e.act = tgt /\ e.on = (IF bit THEN 1 ELSE 0), "C12", "load() did not leave the loader with the saved activity state")
     \cup V(tk.op = "load" /\ FullObs => tk.life = (IF a0 = NONE /\ tgt = NONE THEN <<>> ELSE LifeFor(a0, tgt)), "C12", "load() did not perform exactly the exit/enter/reenter needed")
